@@ -16,7 +16,7 @@ RULE = ("model-based histories: a capability profile (breeze in {breeze-control,
         "both, none}; rate select none/2-level/5-level; iECO, self-clean, vertical/horizontal swing angle present or not) and a "
         "list of up to 25 (quick) / 40 (thorough) operations from {set angle (every member), set rate select (members the profile "
         "supports), breeze_away/mild/breezeless := bool (only where supports_* is true), ieco := bool, start_self_clean, beep := "
-        "bool, change an ordinary 0x40 setting, apply, apply during which the reply to the state command is lost or corrupted, apply during which another setter is called while it waits for the device, refresh, device-side change of a property}. Start: get_capabilities(), "
+        "bool, change an ordinary 0x40 setting, apply, apply during which the reply to the state command is lost or corrupted, apply during which another setter is called while it waits for the device, apply whose calling task is cancelled just after its property write reached the device (exactly one write, none by the next apply), refresh, device-side change of a property}. Start: get_capabilities(), "
         "refresh(). Oracle: the model device's property store and write log: after each apply every property whose setter was "
         "called since the previous apply appears in exactly one 0xB0 of that apply under the advertised id with the vendor value "
         "(angles/rates raw, breeze-control 1..4, breeze-away 2/1, breezeless 1/0, iECO 13-byte record with number at 1 and switch "
@@ -253,6 +253,42 @@ def check_case(case: dict):
                 for key in ("ud", "lr", "rate", "ieco", "breeze"):
                     if key in dv and not (late is not None and late in pending and key == {0x0009: "ud", 0x00E3: "ieco", 0x0048: "rate"}.get(late)):
                         cv[key] = dv[key] if w else cv[key]
+            elif k == "apply_cancelled" and not pending:
+                await ac.apply()
+            elif k == "apply_cancelled":
+                # the caller gives up (wait_for timeout / task cancelled) while the property write is on the wire: the device has
+                # received it, so it was transmitted; the following apply() without a setter call must not send it again
+                import asyncio
+                mark = len(m.prop_writes)
+                loop_ = asyncio.get_running_loop()
+                task = asyncio.ensure_future(ac.apply())
+                seen = {"n": 0}
+
+                def on_write(dev_, conn, frame):
+                    try:
+                        is_prop = rc.frame_parse(frame).body[0] == 0xB0
+                    except Exception:
+                        is_prop = False
+                    if is_prop and not seen["n"]:
+                        seen["n"] = 1
+                        loop_.call_later(0.001 + 0.01 * op[1], task.cancel)
+                    return None
+                dev.on_data = on_write
+                try:
+                    await task
+                except asyncio.CancelledError:
+                    pass
+                finally:
+                    dev.on_data = None
+                await asyncio.sleep(1.0)
+                w = m.prop_writes[mark:]
+                if len(w) != 1:
+                    fail("apply/cancelled-write-count", f"{len(w)} property writes during an apply() cancelled after its property write was sent")
+                pending.clear()
+                dv = device_view()
+                for key in ("ud", "lr", "rate", "ieco", "breeze"):
+                    if key in dv:
+                        cv[key] = dv[key]
             elif k in ("apply", "apply_lossy"):
                 mark = len(m.prop_writes)
                 nstate = len(m.control_bodies)
@@ -376,6 +412,7 @@ def ops_strategy(max_len: int):
         st.tuples(st.just("clean")), st.tuples(st.just("apply")), st.tuples(st.just("apply")), st.tuples(st.just("refresh")),
         st.tuples(st.just("apply_lossy"), st.integers(0, 1)),
         st.tuples(st.just("apply_concurrent"), st.integers(0, 2), st.integers(0, 7)),
+        st.tuples(st.just("apply_cancelled"), st.integers(0, 3)),
         st.tuples(st.just("remote"), st.sampled_from([0x0009, 0x000A, 0x0048, 0x0043, 0x0042, 0x0018, 0x00E3, 0x0039]), st.integers(0, 7)),
     ).map(list)
     free = st.lists(op, min_size=1, max_size=max_len)
@@ -397,6 +434,7 @@ def run(ctx) -> None:
                 scripts.append([setter, ["apply"], ["refresh"], ["apply"], ["refresh"]])
                 scripts.append([setter, ["apply_lossy", len(scripts) % 2], ["refresh"], ["apply"], ["refresh"]])
                 scripts.append([setter, ["apply_concurrent", len(scripts) % 3, len(scripts) % 5], ["apply"], ["refresh"], ["apply"]])
+                scripts.append([setter, ["apply_cancelled", len(scripts) % 4], ["apply"], ["refresh"], ["apply"]])
                 scripts.append([["breezeless", True], ["apply"], setter, ["apply"], ["refresh"], ["remote", 0x0042, 1], ["refresh"], ["remote", 0x0018, 1], ["refresh"]])
             scripts.append([["away", True], ["breezeless", True], ["apply"], ["refresh"], ["away", True], ["apply"], ["refresh"], ["breezeless", False], ["apply"], ["refresh"]])
             for s in scripts:
